@@ -1100,6 +1100,12 @@ V('v17.8', 'C17', 'F', 'C17.R4', "'before' snapshot relabelled 'start'",
 V('v17.9', 'C17', 'F', 'C17.R3', 'snapshot aliases the series', (XMODEL, f'{TM}.trace_t', 'results = np.array([[self[x][t]] for x in names])', 'results = self.values[:, t : t + 1]'))
 V('v17.10', 'C17', 'F', 'C17.R1', 'reset forced on', (XMODEL, f'{TM}.solve_t_after', 't, *args, trace=trace, reset=reset, iteration=iteration, **kwargs', 't, *args, trace=trace, reset=True, iteration=iteration, **kwargs'))
 
+V('v17.20', 'C17', 'F', 'C17.R6', 'revert F43: the Trace of a period is kept whatever names it was created with',
+  (XMODEL, 'TracerMixin.trace_t', "        if current.is_empty() or reset or list(current.names) != list(names):", "        if current.is_empty() or reset:"))
+V('v17.20b', 'C17', 'F', 'C17.R6', 'the lengths of the name lists are compared, not the names',
+  (XMODEL, 'TracerMixin.trace_t', "        if current.is_empty() or reset or list(current.names) != list(names):", "        if current.is_empty() or reset or len(current.names) != len(results):"))
+V('v17.s6', 'C17', 'S', None, 'the names are compared as tuples, through a local',
+  (XMODEL, 'TracerMixin.trace_t', "        if current.is_empty() or reset or list(current.names) != list(names):", "        same = tuple(current.names) == tuple(names)\n        if current.is_empty() or reset or not same:"))
 # ---------------------------------------------------------------------------
 # C18
 # ---------------------------------------------------------------------------
